@@ -156,6 +156,12 @@ class MillerDomain:
             bits = 128 if "u128" in fk.i else 64
             return bits - a[0].bit_length()
         # ---- points
+        if n == "is_zero" and len(a) == 1 and isinstance(a[0], Pt):
+            return ("cond", "iszero", None, False)
+        if n == "is_empty" and len(a) == 1 and isinstance(a[0], Vec):
+            return len(a[0].items) == 0
+        if n == "len" and len(a) == 1 and isinstance(a[0], Vec):
+            return len(a[0].items)
         if n == "neg" and len(a) == 1 and isinstance(a[0], Pt):
             return Pt(pscale(a[0].form, -1))
         if n == "double" and len(a) == 1 and isinstance(a[0], Pt):
@@ -230,6 +236,10 @@ class MillerDomain:
     def aggregate(self, ex, adt, variant, ops):
         return NotImplemented
 
+    def refine(self, ex, fr, cond, truth):
+        if cond[1] == "iszero" and truth:
+            fr.env["__idQ"] = True
+
 
 def frob(form, e):
     out = {}
@@ -284,29 +294,39 @@ def rules(prop, repo):
         except FactsError as e:
             rs = []
             dom.errors.append(str(e))
-        coeffs = None
-        if len(rs) == 1 and isinstance(rs[0][0], Adt) and rs[0][0].name == "crate::pairings::G2Prepared" and isinstance(rs[0][0].fields[0], Vec):
-            coeffs = rs[0][0].fields[0]
         perr = list(dom.errors)
-        if coeffs is None:
-            R.violation("%s:miller:prepared" % prop, "G2Prepared::from does not return a coefficient vector built from tangent/line steps: %r %s" % (rs[0][0] if rs else None, perr[:2]), pb.file_line(), pb.rec["path"])
+        tables = []
+        for v, frx in rs:
+            if isinstance(v, Adt) and v.name == "crate::pairings::G2Prepared" and isinstance(v.fields[0], Vec):
+                tables.append((v, bool(frx.env.get("__idQ"))))
+            else:
+                perr.append("a path of G2Prepared::from returns %r" % (v,))
+        if not tables or perr:
+            R.violation("%s:miller:prepared" % prop, "G2Prepared::from does not return a coefficient vector built from tangent/line steps on every path: %s" % perr[:2], pb.file_line(), pb.rec["path"])
         else:
-            dom2 = MillerDomain(F, N)
-            ex2 = AbsExec(F, dom2, inline=inline, max_steps=400000)
-            hs = Frame(cb, [])
-            hs.env[0] = rs[0][0]
-            hp = Frame(cb, [])
-            hp.env[0] = Adt("crate::groups::G", None, [TOP, TOP, TOP])
-            try:
-                rs2 = ex2.run(cb, [Ref(hs, 0), Ref(hp, 0)])
-            except FactsError as e:
-                rs2 = []
-                dom2.errors.append(str(e))
-            used = [e[1] for e in dom2.events if e[0] == "coeff"]
-            ok = len(rs2) == 1 and isinstance(rs2[0][0], Acc) and rs2[0][0].n == N and rs2[0][0].tail == want_tail and not rs2[0][0].pending
-            order_ok = used == list(range(len(coeffs.items)))
-            R.check(ok and order_ok and not perr and not dom2.errors, "%s:miller:prepared" % prop,
-                    "prepared Miller loop: result %r; coefficients produced %d, consumed %s in order=%s; %s" % (rs2[0][0] if rs2 else None, len(coeffs.items), len(used), order_ok, (perr + dom2.errors)[:3]),
-                    cb.file_line(), cb.rec["path"],
-                    sample={"producer": pb.rec["path"], "consumer": cb.rec["path"], "coefficients": len(coeffs.items), "consumed_in_order": order_ok, "result": repr(rs2[0][0]) if rs2 else None})
+            bad = []
+            smp = None
+            for table, idq in tables:
+                coeffs = table.fields[0]
+                dom2 = MillerDomain(F, N)
+                ex2 = AbsExec(F, dom2, inline=inline, max_steps=400000)
+                hs = Frame(cb, [])
+                hs.env[0] = table
+                hp = Frame(cb, [])
+                hp.env[0] = Adt("crate::groups::G", None, [TOP, TOP, TOP])
+                try:
+                    rs2 = ex2.run(cb, [Ref(hs, 0), Ref(hp, 0)])
+                except FactsError as e:
+                    rs2 = []
+                    dom2.errors.append(str(e))
+                used = [e[1] for e in dom2.events if e[0] == "coeff"]
+                full = len(rs2) == 1 and isinstance(rs2[0][0], Acc) and rs2[0][0].n == N and rs2[0][0].tail == want_tail and not rs2[0][0].pending and used == list(range(len(coeffs.items)))
+                trivial = idq and len(rs2) == 1 and isinstance(rs2[0][0], Acc) and rs2[0][0].key() == Acc(1).key() and not used
+                if dom2.errors or not (full or trivial):
+                    bad.append("table of %d coefficients%s: result %r, consumed %d in order=%s, %s" % (len(coeffs.items), " (identity-Q path)" if idq else "", rs2[0][0] if rs2 else None, len(used),
+                                                                                                      used == list(range(len(coeffs.items))), dom2.errors[:2]))
+                if not idq:
+                    smp = {"producer": pb.rec["path"], "consumer": cb.rec["path"], "coefficients": len(coeffs.items), "consumed_in_order": used == list(range(len(coeffs.items))), "result": repr(rs2[0][0]) if rs2 else None,
+                           "producer_paths": len(tables)}
+            R.check(not bad, "%s:miller:prepared" % prop, "prepared Miller loop: %s" % bad[:2], cb.file_line(), cb.rec["path"], sample=smp)
     return [R.finish()]
